@@ -24,6 +24,7 @@ import WuffsVerif.Proof.Flate.Assembly
 import WuffsVerif.Proof.Flate.CutAll
 import WuffsVerif.Proof.Flate.Whole2
 import WuffsVerif.Proof.Flate.ZlibAll
+import WuffsVerif.Proof.Flate.Frame
 
 namespace WuffsVerif.Props.C16
 open WuffsVerif.Flate WuffsVerif.Flate.Cut WuffsVerif.Flate.Spec
@@ -574,5 +575,59 @@ example : (exFdict.getD 1 0).toNat / 32 % 2 = 1 := by decide
 
 set_option maxRecDepth 1000000 in
 example : (Spec.zlibDecode exDict exFdict).map (fun x => (x.1.size, x.2)) = some (21, 25) := by decide +kernel
+
+
+/-! ## 8. The bytes behind `encodedLen` are left alone — for ALL byte strings and limits (round 3)
+
+Not part of the property's wording, but what callers that keep other data behind the cut rely on (and
+what the harness checks on every case as `tail-modified`). -/
+
+/-- **`flatecut.Cut` never modifies a byte at a position ≥ `encodedLen`**, whatever the bytes and the limit:
+every in-place write lies below the returned cursor — the LEN/NLEN rewrite of `doStored`, the bits of
+`writeEndCode`, the final-bit patch of this block or of the previous one, the padding mask, the stored
+block / the two bytes of `cutSingleBlock`.  Needs that the cursor only moves forward through a block
+(`BlockTotal.cont/prog`, `huffLoop_cpge`: every checkpoint lies behind the start of its block). -/
+theorem cut_tail_unchanged (w : Bool) (encoded : Bytes) (limit : Int) (r : CutResult)
+    (h : Cut.Cut w encoded limit = .ok r) :
+    ∀ k, r.encodedLen ≤ k → r.encoded.getD k 0 = encoded.getD k 0 :=
+  Cut.Cut_frame w encoded limit r h
+
+/-- … and neither does `zlibcut.Cut` (the four Adler-32 bytes are the last four of the result). -/
+theorem zlibcut_tail_unchanged (encoded : Bytes) (limit : Int) (r : CutResult)
+    (h : ZlibCut.Cut encoded limit = .ok r) :
+    ∀ k, r.encodedLen ≤ k → r.encoded.getD k 0 = encoded.getD k 0 :=
+  ZlibCut.Cut_frame encoded limit r h
+
+/-- `cutSingleBlock` (the fallback) returns at least 2 bytes, at most the budget, and keeps the buffer size. -/
+theorem cutSingleBlock_lengths (enc : Bytes) (m : Nat) (enc' : Bytes) (e d : Nat)
+    (h : Cut.cutSingleBlock enc m = .ok (enc', e, d)) (hm : m ≤ enc.size) :
+    e ≤ m ∧ 2 ≤ e ∧ enc'.size = enc.size :=
+  Cut.cutSingleBlock_spec enc m enc' e d h hm
+
+
+/-- The documented minimum: `flatecut.Cut` succeeds only for `maxEncodedLen ≥ SmallestValidMaxEncodedLen = 2`
+(below it the result is errMaxEncodedLenTooSmall), whatever the bytes. -/
+theorem cut_needs_minimum (w : Bool) (encoded : Bytes) (limit : Int) (r : CutResult)
+    (h : Cut.Cut w encoded limit = .ok r) : 2 ≤ limit := by
+  rw [Cut.Cut_eq] at h
+  split at h
+  · simp at h
+  · rename_i hlim
+    simp only [WuffsVerif.Gen.C16.smallestValidMaxEncodedLen] at hlim
+    omega
+
+/-- … and `zlibcut.Cut` only for `maxEncodedLen ≥ SmallestValidMaxEncodedLen = 8` (2 header bytes, the
+2-byte minimum of flatecut, 4 Adler-32 bytes). -/
+theorem zlibcut_needs_minimum (encoded : Bytes) (limit : Int) (r : CutResult)
+    (h : ZlibCut.Cut encoded limit = .ok r) : 8 ≤ limit := by
+  simp only [ZlibCut.Cut] at h
+  repeat' split at h
+  all_goals first
+    | (simp at h; done)
+    | skip
+  all_goals
+    rename_i r' hcut _
+    have := cut_needs_minimum _ _ _ _ hcut
+    omega
 
 end WuffsVerif.Props.C16
